@@ -3055,8 +3055,11 @@ static Node *funcall(Token **rest, Token *tok, Node *fn) {
 
   // If a function returns a struct, it is caller's responsibility
   // to allocate a space for the return value.
-  if (node->ty->kind == TY_STRUCT || node->ty->kind == TY_UNION)
+  if (node->ty->kind == TY_STRUCT || node->ty->kind == TY_UNION) {
+    if (node->ty->size < 0)
+      error_tok(fn->tok, "calling a function that returns an incomplete type");
     node->ret_buffer = new_lvar("", node->ty);
+  }
   return node;
 }
 
@@ -3370,6 +3373,8 @@ static Token *function(Token *tok, Type *basety, VarAttr *attr) {
   // A buffer for a struct/union return value is passed
   // as the hidden first parameter.
   Type *rty = ty->return_ty;
+  if ((rty->kind == TY_STRUCT || rty->kind == TY_UNION) && rty->size < 0)
+    error_tok(ty->name, "function returns an incomplete type");
   if ((rty->kind == TY_STRUCT || rty->kind == TY_UNION) && rty->size > 16)
     new_lvar("", pointer_to(rty));
 
